@@ -171,9 +171,19 @@ class Tdf:
         return self
 
     def __enter__(self) -> "Tdf":
-        self._inside_context = True
         self.handler: IO[bytes] = self.file_path.open(self._mode)
+        self._inside_context = True
 
+        try:
+            self._read_header()
+        except BaseException:
+            # not a TDF file: don't leave a half-entered context behind
+            self.__exit__(None, None, None)
+            raise
+
+        return self
+
+    def _read_header(self) -> None:
         self.signature = self.handler.read(len(self.SIGNATURE))
 
         if self.signature != self.SIGNATURE:
@@ -193,8 +203,6 @@ class Tdf:
         i32.skip(self.handler, 5)
 
         self.entries = [TdfEntry._build(self.handler) for _ in range(self.nEntries)]
-
-        return self
 
     def __exit__(self, exc_type, exc_val, exc_tb) -> None:
         self._inside_context = False
